@@ -31,6 +31,32 @@ pub fn explore(ex: &Ex) {
         }
     });
 
+    // wide maps (size thresholds): many extras around all typed fields, one fault at three positions
+    {
+        use gen::{b, i, t, u};
+        let typed = vec![(u(1), i(-7)), (u(2), gen::arr(vec![u(4)])), (u(3), t("a/b")), (u(4), b(b"kid")), (u(5), b(b"iv")), (u(7), gen::arr(vec![gen::sig_valid(), gen::sig_valid2()]))];
+        let faults = vec![(u(4), b(b"")), (u(6), b(b"p")), (u(1), u(8)), (u(1000), u(0)), (crate::refcbor::NULL, u(1)), (u(3), t(&"x".repeat(300)))];
+        super::wide_maps(ex, "c08.wide", &|k| if k % 3 == 0 { (t(&format!("x{}", k)), u(k as u64)) } else if k % 3 == 1 { (u(1000 + k as u64), b(b"v")) } else { (i(-1000 - k as i128), crate::refcbor::NULL) }, &typed, &faults, &|m, l| {
+            for (_n, ty, bytes) in header_carriers(m, false) {
+                ex.decode(l, "c08.wide", ty, Entry::Slice, &bytes);
+            }
+        });
+        // long strings in typed fields
+        for n in [23usize, 24, 255, 256, 65536] {
+            let mut l = crate::mc::Local::default();
+            for m in [
+                gen::map(vec![(u(3), t(&format!("{}/{}", "a".repeat(n), "b")))]),
+                gen::map(vec![(u(3), t(&"a".repeat(n)))]),
+                gen::map(vec![(u(4), b(&gen::pattern(n)))]),
+                gen::map(vec![(u(1), t(&"z".repeat(n)))]),
+                gen::map(vec![(u(2), gen::arr((0..n.min(300)).map(|_| u(4)).collect()))]),
+            ] {
+                l.state(1);
+                ex.decode(&mut l, "c08.long", Ty::Header, Entry::Slice, &m.det());
+            }
+            ex.rep.merge(l);
+        }
+    }
     // every encoding within d deviations of small maps
     let d = ex.pick(1usize, 1, 2);
     ex.bound("c08.encodings", "deviations_max", json!(d));
